@@ -49,6 +49,18 @@ Definition mk_shape k self len bk date ch : shape :=
 
 Definition time_self (is_date : bool) : gty := GNamed (if is_date then "Date" else "Time").
 
+(** Type() rebuilds composite types from the Type() of their elements, so time.Time shows up as the
+    predefined Time inside slices, arrays, maps and pointers too *)
+Fixpoint predef (t : gty) : gty :=
+  match t with
+  | GNamed id => if String.eqb id "time.Time" then GNamed "Time" else t
+  | GPointer e => GPointer (predef e)
+  | GArray n e => GArray n (predef e)
+  | GSlice e => GSlice (predef e)
+  | GMap k e => GMap (predef k) (predef e)
+  | _ => t
+  end.
+
 Section Classify.
   Variable pr : prog.
   Variable enums : list enum.
@@ -86,10 +98,10 @@ Section Classify.
   Definition classify (t : gty) : result shape :=
     match t with
     | GBasic k => Ok (mk_shape KdBasic (GBasic k) 0 (Some k) false [])
-    | GPointer e => Ok (mk_shape KdPointer (GPointer e) 0 None false [e])
-    | GArray n e => Ok (mk_shape KdArray (GArray n e) n None false [e])
-    | GSlice e => Ok (mk_shape KdArray (GSlice e) (-1) None false [e])
-    | GMap k e => Ok (mk_shape KdMap (GMap k e) 0 None false [k; e])
+    | GPointer e => Ok (mk_shape KdPointer (predef (GPointer e)) 0 None false [e])
+    | GArray n e => Ok (mk_shape KdArray (predef (GArray n e)) n None false [e])
+    | GSlice e => Ok (mk_shape KdArray (predef (GSlice e)) (-1) None false [e])
+    | GMap k e => Ok (mk_shape KdMap (predef (GMap k e)) 0 None false [k; e])
     | GStructLit s =>
         if String.prefix time_pos_prefix s then
           match find_type (drop (String.length time_pos_prefix) s) (pr_types pr) with
@@ -107,7 +119,7 @@ Section Classify.
               let is_date := contains "date" (lower (n_name d)) in
               if String.eqb (n_pkg d) "time"
               then Ok (mk_shape KdTime (time_self is_date) 0 None is_date [])
-              else Ok (mk_shape KdNamed (GNamed id) 0 None is_date [under_gty d])
+              else Ok (mk_shape KdNamed (GNamed id) 0 None false [under_gty d])
             else if is_enum id then Ok (mk_shape KdEnum (GNamed id) 0 None false [])
             else match union_members id with
             | Some ms => Ok (mk_shape KdUnion (GNamed id) 0 None false (map GNamed ms))
